@@ -18,7 +18,7 @@ def combine_regions_clause(ctx):
 
 
 def main(tier, seed, t0):
-    depth = int(os.environ.get("VERIF_DEPTH") or (4 if tier == "quick" else 6))
+    depth = int(os.environ.get("VERIF_DEPTH") or (4 if tier == "quick" else 5))
     ctx = core.Ctx(PROPERTY, tier, seed, level=LEVEL)
     sysm = regsys.RegionSystem()
     res = histories.bfs(sysm, depth)
